@@ -1,9 +1,67 @@
-import TartModel.Impl.Exec
+import TartModel.Proofs.ExecLemmas
+/-
+  C02 — field failures are contained: error accounting of the executor model (Impl/Exec.lean).
+  All statements hold for every schema, document, variables, resolver environment, fuel and
+  starting state.  `Ext p st st'`: `st'` = `st` plus errors whose paths all lie under `p`.
+-/
 namespace Tart.C02
 open Tart
-theorem placeholder_mapSt_length {α β σ : Type} (f : α → σ → β × σ) (xs : List α) (s : σ) :
-    (mapSt f xs s).1.length = xs.length := by
-  induction xs generalizing s with
-  | nil => rfl
-  | cons a as ih => simp [mapSt, ih]
+
+/-- Errors are only ever appended, and every error recorded while a job (completing a value at
+    `path`, or executing a selection set at `path`) runs carries a path under that position:
+    no entry is attributed outside the sub-tree where the failure happened. -/
+theorem errors_appended_and_located (fuel : Nat) (ctx : Ctx) (job : Job) (st : St) :
+    Ext (jobPath job) st (run fuel ctx job st).2 :=
+  (run_inv fuel ctx job st).1
+
+/-- A propagating failure (MultipleException) is never empty: whatever position it finally
+    nulls is explained by at least one error, located under the job's path or still unlocated. -/
+theorem raised_never_empty (fuel : Nat) (ctx : Ctx) (job : Job) (st : St) (es : List GErr)
+    (h : (run fuel ctx job st).1 = .error (.multi es)) :
+    es ≠ [] ∧ ∀ e ∈ es, e.path = [] ∨ jobPath job <+: e.path := by
+  have := (run_inv fuel ctx job st).2
+  rw [h] at this
+  exact this
+
+/-- One field of a selection set (response key `d.1` under `path`): whatever it records lies under
+    `path ++ [key]`, and if it raises (non-null field) the raised errors are non-empty and lie there too. -/
+theorem field_errors_under_field (fuel n : Nat) (ctx : Ctx) (tn : String) (parent : PyVal) (path : List PathSeg)
+    (d : FieldJob) (st : St) :
+    Ext path st (fieldStep (run n ctx) fuel ctx tn parent path d st).2 ∧
+    ResOK path (fieldStep (run n ctx) fuel ctx tn parent path d st).1.2 :=
+  fieldStep_inv (run_inv n ctx) fuel ctx tn parent path d st
+
+/-- A failure swallowed at a nullable position (the value becomes null) always leaves at least one
+    error whose path lies under that position — list indices included, since `p` is the full path. -/
+theorem swallowed_failure_is_reported (nodes : List Selection) (p : List PathSeg) (e : Exn) (st : St)
+    (hr : ExnOK p (.error e)) :
+    (catchField false nodes p (.error e, st)).1 = .ok .none ∧
+    ∃ g ∈ (catchField false nodes p (.error e, st)).2.errors, p <+: g.path :=
+  catchField_null_has_error nodes p e st hr
+
+/-- At a non-null position nothing is swallowed: the failure propagates (the parent is nulled instead)
+    and no error is recorded at this level. -/
+theorem nonnull_propagates (nodes : List Selection) (p : List PathSeg) (e : Exn) (st : St) :
+    (catchField true nodes p (.error e, st)).1 = .error (locate e nodes p) ∧
+    (catchField true nodes p (.error e, st)).2 = st := by
+  simp [catchField]
+
+/-- Located errors keep the message and `extensions` of exceptions derived from the library's error
+    class (`tart = true`) and carry the locations of the field's nodes. -/
+theorem located_keeps_user_payload (k : String) (t : Bool) (m : String) (x : List (String × PyVal))
+    (nodes : List Selection) (p : List PathSeg) :
+    locate (.raw k t m x) nodes p = [⟨p, nodeLocs nodes, t, m, x, k⟩] := rfl
+
+/-- Request level: `data` is null only together with at least one entry in `errors` (refused
+    request, failed operation selection, or a failure that propagated through non-null positions
+    up to the root). -/
+theorem data_null_has_error (fuel : Nat) (S : Schema) (o : Oracle) (env : Env) (doc : Document)
+    (opName : Option String) (rawVars : List (String × PyVal)) (root : PyVal)
+    (h : (executeRequest fuel S o env doc opName rawVars root).data = .none) :
+    (executeRequest fuel S o env doc opName rawVars root).errors ≠ [] :=
+  executeRequest_null_has_error fuel S o env doc opName rawVars root h
+
+/-- non-vacuity: a concrete failing job -/
+example : (catchField false [] [.key "a", .idx 0] (.error (.raw "resolver" true "boom" []), {})).2.errors.length = 1 := by rfl
+
 end Tart.C02
